@@ -22,6 +22,7 @@ class Sim:
 
     def __init__(self, nthreads, exact=True):
         self.exact = exact
+        self.inexact = False      # a clock value was not exactly representable as a float (non-dyadic constants)
         self.clock = [Fr(0)] * nthreads
         self.cur = 0
         self.lockfree = {'r': Fr(0), 'w': Fr(0)}
@@ -33,7 +34,8 @@ class Sim:
     def perf_counter(self):
         v = self.clock[self.cur]
         f = float(v)
-        assert not self.exact or Fr(f) == v, 'virtual clock value not exactly representable'
+        if Fr(f) != v:
+            self.inexact = True
         return f
 
     def sleep(self, x):
@@ -152,6 +154,7 @@ def run_impl(sc, rng=None):
                         'lock': sim.lock_taken_at, 'time': log[-1][1], 'sleep': sum(sim.sleeps, Fr(0)), 'debt': Fr(debt)})
         consts = (Fr(lim.PAUSE_LIMIT), Fr(lim.PAUSE_THRESHOLD_SECONDS))
     sc['order'] = order
+    sc['_inexact'] = sim.inexact
     return out, consts
 
 
@@ -193,7 +196,8 @@ def check_bound(sc, calls, consts, rep, kind_override=None):
     if best is not None and sc.get('family') != 'multi-slow-io-probe':
         key = 'closest_to_bound_bytes_below[' + ('1 stream' if n == 1 else 'n streams') + ']'
         rep.extra[key] = min(rep.extra.get(key, 10 ** 9), float(-best[0]))
-    if best is not None and best[0] > 0:
+    tol = (L * best[2] + burst) / 10 ** 9 if (best is not None and sc.get('_inexact')) else 0
+    if best is not None and best[0] > tol:
         ex, t, T, by = best
         slow = any(c['lat'] > 0 for c in calls)
         kind = kind_override or ('multi_stream_slow_io' if (n > 1 and slow) else 'window_bound')
@@ -201,7 +205,7 @@ def check_bound(sc, calls, consts, rep, kind_override=None):
             'what': (f'{by} bytes passed in a window of {float(T):.6g} s starting at {float(t):.6g} s with limit {sc["L"]} B/s, '
                      f'{n} stream(s), sizes <= {sc["dmax"]}: allowed L*T + L*PAUSE_LIMIT + {"(n+1)*" if n > 1 else ""}d_max = {float(L * T + burst):.6g}'),
             'signature': {'kind': kind, 'dir': sc['dir']},
-            'replay': sc})
+            'replay': {k: v for k, v in sc.items() if not k.startswith('_')}})
         return True
     return False
 
@@ -306,24 +310,41 @@ def fs(x):
     return str(Fr(x))
 
 
+_DIVISORS = None
+
+
+def site_divisors():
+    """the divisors K of `max(rate_limit // (self._concurrent * K), 1)` at the rate-limited sites, read off the current
+    source (so that a changed formula is exercised with the sizes it really produces); 16 if the shape is not recognised"""
+    global _DIVISORS
+    if _DIVISORS is None:
+        try:
+            from translate import pyast, units_c20
+            _DIVISORS = sorted({d for _, d in units_c20.chunk_sites(pyast.module(units_c20.REPOSITORY))}) or [16]
+        except Exception:
+            _DIVISORS = [16]
+    return _DIVISORS
+
+
 def gen_single(rng, ncalls):
     L, odd = gen_limit(rng)
     k = rng.random()
     if k < 0.35:
-        conc = rng.choice([1, 2, 4, 5, 8])
-        dmax = max(L // (conc * 16), 1)          # the chunk size the commands choose
+        conc = rng.choice([1, 1, 2, 4, 5, 8])
+        dmax = max(L // (conc * rng.choice(site_divisors())), 1)     # the chunk size the commands choose
     elif k < 0.75:
         dmax = L // 4                            # the property's quantifier bound
     else:
         dmax = rng.randint(1, L // 4)
     dmax = max(dmax // odd * odd, odd) if odd > 1 else dmax
-    if dmax * 4 > L:
+    if dmax * 4 > L and k >= 0.35:
         dmax = odd
     adversarial = rng.random() < 0.3
+    adv_mixed = rng.random() < 0.4
     calls = []
     for _ in range(ncalls):
         if adversarial:
-            d = dmax
+            d = rng.choice([dmax, dmax, dmax, dmax // 2 // odd * odd]) if adv_mixed else dmax
             e = rng.choice([Fr(0), Fr(0), Fr(0), Fr(d, L)])
             g = Fr(0)
         else:
@@ -340,9 +361,9 @@ def gen_multi(rng, ncalls):
     """several streams, negligible (zero) underlying latency - the BytesIO payloads of snapshot and restore"""
     L, odd = gen_limit(rng)
     n = rng.choice([2, 2, 3, 4, 5])
-    dmax = max(L // (n * 16), 1)
+    dmax = max(L // (n * rng.choice(site_divisors())), 1)
     dmax = max(dmax // odd * odd, odd) if odd > 1 else dmax
-    if dmax * 4 > L:
+    if dmax * 4 > L and site_divisors() == [16]:
         return gen_multi(rng, ncalls)
     calls = [[] for _ in range(n)]
     greedy = rng.random() < 0.5
@@ -480,10 +501,13 @@ def exercise(scs, rep, rng, with_model=True):
         rep.count('calls', len(calls))
         rep.count('sleeps', sum(1 for c in calls if c['sleep'] > 0))
         if sc['family'] == 'multi-slow-io-probe':
-            check_bound(sc_public(sc), calls, consts, rep, kind_override='multi_stream_slow_io')
+            check_bound(dict(sc_public(sc), _inexact=sc['_inexact']), calls, consts, rep, kind_override='multi_stream_slow_io')
         else:
-            check_bound(sc_public(sc), calls, consts, rep)
-        done.append(sc)
+            check_bound(dict(sc_public(sc), _inexact=sc['_inexact']), calls, consts, rep)
+        if sc['_inexact']:
+            rep.count('float-inexact scenarios (model comparison skipped, oracle with 1e-9 tolerance)')
+        else:
+            done.append(sc)
     if done:
         rep.sample({k: (v if k != 'calls' else [t[:4] for t in v]) for k, v in sc_public(done[0]).items()})
     if with_model and done:
